@@ -174,6 +174,30 @@ def gen_history(rng, n_ops, k=0, wb=False):
         elif r < 0.985: ops.append({'op': 'statfs', 'i': islot()})
         elif r < 0.99: ops.append({'op': 'flush', 'i': islot(), 'h': hslot()})
         else: ops.append({'op': 'statfs', 'i': islot()})
+    # ordinary single-component names that merely LOOK special (they start with dots but are neither "." nor ".."): every
+    # name-taking operation, with the export root AND a subdirectory as parent, on missing and on existing entries
+    DOTNAMES = [b'..a', b'...', b'..data', b'.. ', b'.a', b'..\xff', b'....', b'a..']
+    n0 = DOTNAMES[k % len(DOTNAMES)]
+    for par in (0, 5):
+        ops.append({'op': 'lookup', 'p': par, 'name': n0}); ni += 1
+        ops.append({'op': 'mkdir', 'p': par, 'name': n0, 'mode': 0o750, 'umask': 0, 'uid': 0, 'gid': 0}); ni += 1
+        ops.append({'op': 'lookup', 'p': par, 'name': n0}); ni += 1
+        ops.append({'op': 'lookup', 'p': ni - 1, 'name': b'..'}); ni += 1
+        ops.append({'op': 'rmdir', 'p': par, 'name': n0})
+        ops.append({'op': 'create', 'p': par, 'name': n0, 'mode': 0o640, 'umask': 0, 'flags': O_RDWR, 'fuse_flags': 0, 'uid': 0, 'gid': 0}); ci = ni; ch = nh; ni += 1; nh += 1; hflags.append(O_RDWR)
+        ops.append({'op': 'write', 'i': ci, 'h': ch, 'off': 0, 'data': b'dots', 'flags': O_RDWR, 'fuse_flags': 0})
+        ops.append({'op': 'lookup', 'p': par, 'name': n0}); ni += 1
+        ops.append({'op': 'getattr', 'i': ni - 1, 'h': None})
+        ops.append({'op': 'link', 'i': ci, 'p': par, 'name': n0 + b'L'}); ni += 1
+        ops.append({'op': 'symlink', 'p': par, 'name': n0 + b's', 'target': b'f1', 'uid': 0, 'gid': 0}); ni += 1
+        ops.append({'op': 'readlink', 'i': ni - 1})
+        ops.append({'op': 'mknod', 'p': par, 'name': n0 + b'm', 'mode': 0o010600, 'rdev': 0, 'umask': 0, 'uid': 0, 'gid': 0}); ni += 1
+        ops.append({'op': 'rename', 'p': par, 'name': n0, 'p2': par, 'name2': n0 + b'r', 'flags': 0})
+        ops.append({'op': 'lookup', 'p': par, 'name': n0}); ni += 1
+        ops.append({'op': 'lookup', 'p': par, 'name': n0 + b'r'}); ni += 1
+        for suffix in (b'r', b'L', b's', b'm'):
+            ops.append({'op': 'unlink', 'p': par, 'name': n0 + suffix})
+        ops.append({'op': 'lookup', 'p': par, 'name': n0 + b'L'}); ni += 1
     # twins of open/release/fsync on directories, and flush: opendir / fsyncdir / releasedir on the root and a subdirectory,
     # flush + release of a file handle (fsyncdir is compared with the direct calls only; it is not in the Coq model)
     for dslot in (0, 5):
@@ -339,8 +363,15 @@ def run_check(tier, seed):
                 if not a['ok'] or not b['ok'] or len(a['ops']) != len(hh['ops']) or len(b['ops']) != len(hh['ops']):
                     broken.append({'kind': 'harness-run', 'what': 'history %d' % hh['k'], 'pt': a['msg'], 'shadow': b['msg'], 'n': [len(a['ops']), len(b['ops']), len(hh['ops'])]}); continue
                 diverged = False
+                a2b = {}; b2a = {}      # inode identity: the replies name the same objects as the direct calls do
                 for j, (o, ra, rb) in enumerate(zip(hh['ops'], a['ops'], b['ops'])):
                     evals += 1
+                    if not diverged and not hh['cfg'].get('inode_file_handles') and 'ino' in ra['r'] and 'ino' in rb['r']:
+                        ia, ib = ra['r']['ino'], rb['r']['ino']
+                        if a2b.setdefault(ia, ib) != ib or b2a.setdefault(ib, ia) != ia:
+                            diverged = True
+                            findings.append({'what': 'request %d (%s) returns a different object than the direct calls name (inode identities do not correspond): passthrough %s | direct %s' % (j, op_line(o), ra['raw'], rb['raw']),
+                                             'input': rin, 'sig': {'kind': 'identity', 'op': o['op']}})
                     ca, cb = canon_reply(o, ra['r']), canon_reply(o, rb['r'])
                     if errno_of(ra['r']) == 0: nontriv.add((o['op'], 'ok', ra['r'].get('mode', '')[:3]))
                     else: nontriv.add((o['op'], errno_of(ra['r'])))
@@ -379,6 +410,7 @@ def run_check(tier, seed):
                 # the model on the same history
                 if coq_ok:
                     mops = [(o, r) for o, r in zip(hh['ops'], a['ops']) if MODELLED(o)]
+                    mops = cut_at_stale(mops, hh['cfg'])
                     ec = effective_cfg(hh['cfg'])
                     obs = '[' + ';\n'.join('(%s, %s)' % (reply_coq(o, r['r']), creds_coq(r['creds'])) for o, r in mops) + ']'
                     reqs = '[' + ';\n'.join(op_coq(o) for o, r in mops) + ']'
